@@ -214,8 +214,11 @@ def make_unit(iset, cube_name, cube_pred, memarch='PMSA', nregions=1, props=('C1
                 ob = eng.oblige('post.gate', '%s: the coprocessor hook %s is reached only after Coproc_Accepted()' % (tag, hooks[0][0]), okg)
                 ob.props = ['C12', 'C19']
                 if okg:
+                    # (where Coproc_Accepted() itself took a Hyp trap - CP14 ThumbEE registers under HSTR.TTEE - the implementation falls
+                    # through to the hook with the trap entered: recorded in DESIGN.md 14.14, outside every claim like the hooks themselves)
+                    trapped = 'take_hyp_trap_exception' in events
                     ob = eng.oblige('post.gate', '%s: Coproc_Accepted() was asked about the coprocessor the transfer goes to, and nothing changed before the hook' % tag,
-                                    land(values_eq(acc[0][1], hooks[0][1]), *[values_eq(v, init[k]) for k, v in final.items() if k not in SCRATCH]))
+                                    land(values_eq(acc[0][1], hooks[0][1]), *([] if trapped else [values_eq(v, init[k]) for k, v in final.items() if k not in SCRATCH])))
                     ob.props = ['C12', 'C19']
             # hints and barriers (rows marked mock): the hook is reached only when the condition passes, and nothing has changed by then
             want_ = 'arm' if iset == 'arm' else ('t16' if iset == 'thumb16' else 't32')
@@ -387,7 +390,7 @@ def make_unit(iset, cube_name, cube_pred, memarch='PMSA', nregions=1, props=('C1
                     _, s_unpred, s_undef = SS.spec_step(r, st0, instr, 'arm' if iset == 'arm' else 'thumb', oplen)
                     ob = eng.oblige('post.exc', '%s: takes %s only where the architecture specifies an exception' % (tag, ','.join(took)),
                                     lor(lnot(r.match(instr)), s_undef, s_unpred, unpred))
-                    ob.props = fams(r, fam)
+                    ob.props = fams(r, fam) + ['C11']
         if rows and not events:
             dprop = 'C06' if iset == 'arm' else 'C07'
             want = 'arm' if iset == 'arm' else ('t16' if iset == 'thumb16' else 't32')
